@@ -18,7 +18,14 @@ def build(ctx, rule):
     m = Model()
     m.mod = mod
     m.f = None
-    for f in mod.funcs.values():
+    from ..core import tail_inlined as _ti
+
+    def is_key_extraction(callee):
+        return any(isinstance(r, ast.Return) and isinstance(r.value, ast.Tuple) and len(r.value.elts) >= 4 for r in ast.walk(callee.node))
+
+    from ..core import inline_bool_temps, rotate_primed_loops
+
+    for f in [inline_bool_temps(rotate_primed_loops(_ti(repo, f0, keep=is_key_extraction))) for f0 in mod.funcs.values()]:
         for n in walk_own(f.node):
             if isinstance(n, ast.Call) and isinstance(n.func, ast.Attribute) and n.func.attr == "sort" and any(k.arg == "key" for k in n.keywords):
                 m.f = f
@@ -76,9 +83,9 @@ def build(ctx, rule):
     if m.unpack is None:
         raise AnalysisError(rule, f.where(m.pass1), "cannot find the key-extraction call in the read pass")
     ctx.analysed_func(m.pa)
-    from ..core import inlined
+    from ..core import desugar_ifexp, inlined, tail_inlined
 
-    m.pa = inlined(repo, m.pa)
+    m.pa = desugar_ifexp(inlined(repo, tail_inlined(repo, m.pa)))
     m.p1_paths = enum_paths(m.pass1.body, rule=rule, where=f.where(m.pass1))
     m.p2_paths = enum_paths(m.pass2.body, rule=rule, where=f.where(m.pass2))
     # writer handle and index parameters
